@@ -131,12 +131,14 @@ theorem eoc_swaps (s : St) (c1 c2 : Nat) (f2 : Bool) (h1 : c1 &&& 7 = 4 ∨ c1 &
 set_option maxRecDepth 100000 in
 example : (endOfCaption (init.chans.headD default)).hidden = true := by decide
 
-/-- **edm_clears_displayed.** Erase Displayed Memory blanks the displayed memory of the addressed
-channel and raises a caption event; in pop-on mode the non-displayed memory is untouched (in the other
-modes libzvbi's working copy is erased as well). -/
+/-- **edm_clears_displayed.** Erase Displayed Memory blanks the displayed memory of channel `edmChan chan` and raises a
+caption event; in pop-on mode the non-displayed memory is untouched (in the other modes libzvbi's working copy is erased
+as well).  `edmChan chan` is the addressed channel `chan` on a tree without the repair of finding F73, and with it
+(`edmEnmOnCaption`, read from the source by translate/gen_cc.py) the CAPTION channel `chan & 3` of the data channel even
+inside a Text Mode transmission (EIA-608-B 7.7 / Annex B.7) - `edm_enm_target` below states both shapes. -/
 theorem edm_clears_displayed (s : St) (c1 c2 : Nat) (f2 : Bool) (h1 : c1 &&& 7 = 4 ∨ c1 &&& 7 = 5) (h2 : c2 < 0x40)
     (h3 : c2 &&& 15 = 12) :
-    captionCommand s c1 c2 f2 = s.modCh (cmdChan s c1 f2) eraseDisplayed ∧
+    captionCommand s c1 c2 f2 = s.modCh (edmChan (cmdChan s c1 f2)) eraseDisplayed ∧
     ∀ ch, ChInv ch →
       (eraseDisplayed ch).displayed = List.replicate (rows * columns) ch.ts ∧
       (eraseDisplayed ch).nev = ch.nev + 1 ∧ (eraseDisplayed ch).hidden = ch.hidden ∧
@@ -145,16 +147,32 @@ theorem edm_clears_displayed (s : St) (c1 c2 : Nat) (f2 : Bool) (h1 : c1 &&& 7 =
     ⟨(eraseDisplayed_spec h).1, (eraseDisplayed_spec h).2.1, (eraseDisplayed_spec h).2.2.1, (eraseDisplayed_spec h).2.2.2.1⟩⟩
 
 /-- **enm_clears_hidden.** Erase Non-Displayed Memory, in pop-on mode, blanks the non-displayed memory
-and leaves the displayed memory and the event count alone.  (In any other mode libzvbi ignores the
-code - recorded as a deviation from EIA-608 in NOTES/C08.md.) -/
+and leaves the displayed memory and the event count alone; it acts on channel `edmChan chan` (see `edm_clears_displayed`,
+`edm_enm_target`).  (In any other mode libzvbi ignores the code - recorded as a deviation from EIA-608 in NOTES/C08.md.) -/
 theorem enm_clears_hidden (s : St) (c1 c2 : Nat) (f2 : Bool) (h1 : c1 &&& 7 = 4 ∨ c1 &&& 7 = 5) (h2 : c2 < 0x40)
     (h3 : c2 &&& 15 = 14) :
-    captionCommand s c1 c2 f2 = s.modCh (cmdChan s c1 f2) eraseNonDisplayed ∧
+    captionCommand s c1 c2 f2 = s.modCh (edmChan (cmdChan s c1 f2)) eraseNonDisplayed ∧
     ∀ ch, ChInv ch → ch.mode = .popOn →
       (eraseNonDisplayed ch).nonDisplayed = List.replicate (rows * columns) ch.ts ∧
       (eraseNonDisplayed ch).displayed = ch.displayed ∧ (eraseNonDisplayed ch).nev = ch.nev :=
   ⟨dispatch_enm s c1 c2 f2 h1 h2 h3, fun _ h hm =>
     ⟨((eraseNonDisplayed_spec h).1 hm).1, ((eraseNonDisplayed_spec h).1 hm).2.1, ((eraseNonDisplayed_spec h).1 hm).2.2.1⟩⟩
+
+/-- **edm_enm_target** (both source shapes).  Without the repair of finding F73 EDM / ENM act on the channel the control
+pair addresses - a TEXT channel while a text transmission is current; with the repair they act on caption channel
+`2 * field + channel bit` whatever the current class is, and never on a text channel. -/
+theorem edm_enm_target (s : St) (c1 : Nat) (f2 : Bool) :
+    (edmEnmOnCaption = false → edmChan (cmdChan s c1 f2) = cmdChan s c1 f2) ∧
+    (edmEnmOnCaption = true → edmChan (cmdChan s c1 f2) = (if f2 then 2 else 0) + ((c1 >>> 3) &&& 1) ∧
+      edmChan (cmdChan s c1 f2) < 4) := by
+  refine ⟨fun h => by unfold edmChan; rw [h]; rfl, fun h => ?_⟩
+  have hg := (cmdChan_group s c1 f2).2.1
+  have hk : (c1 >>> 3) &&& 1 ≤ 1 := Nat.and_le_right
+  have e : edmChan (cmdChan s c1 f2) = cmdChan s c1 f2 &&& 3 := by unfold edmChan; rw [h]; rfl
+  rw [e, hg]
+  exact ⟨rfl, by cases f2 <;> simp <;> omega⟩
+
+example : edmChan 5 = 5 ∨ edmChan 5 = 1 := by unfold edmChan; cases edmEnmOnCaption <;> simp
 
 /-- libzvbi's `row_mapping[]` is the PAC row table of 47 CFR 15.119 (f)(1) (`Eia608.pacRow`);
 -1 exactly for the one undefined code. -/
